@@ -25,7 +25,7 @@ impl Wake for Unpark {
 }
 
 /// Reader side: poll until end of stream; a `Pending` must be followed by a wake-up within the deadline.
-fn read_to_end(mut r: swimos_byte_channel::ByteReader, deadline: Duration) -> bool {
+fn read_to_end(mut r: swimos_byte_channel::ByteReader, deadline: Duration, closed: &AtomicBool) -> bool {
     let w = Arc::new(Unpark(thread::current(), AtomicBool::new(false)));
     let waker = Waker::from(w.clone());
     let mut store = [0u8; 8];
@@ -37,10 +37,14 @@ fn read_to_end(mut r: swimos_byte_channel::ByteReader, deadline: Duration) -> bo
             Poll::Ready(Ok(())) => continue,
             Poll::Ready(Err(_)) => return true,
             Poll::Pending => {
-                let start = Instant::now();
+                // the clock only starts once the other side has really closed (it may have been descheduled)
+                let mut start: Option<Instant> = None;
                 while !w.1.swap(false, Ordering::SeqCst) {
-                    if start.elapsed() > deadline {
-                        return false; // parked although the writer has gone: a lost wake-up
+                    if closed.load(Ordering::SeqCst) {
+                        let t0 = *start.get_or_insert_with(Instant::now);
+                        if t0.elapsed() > deadline {
+                            return false; // parked although the writer has gone: a lost wake-up
+                        }
                     }
                     thread::park_timeout(Duration::from_millis(5));
                 }
@@ -50,7 +54,7 @@ fn read_to_end(mut r: swimos_byte_channel::ByteReader, deadline: Duration) -> bo
 }
 
 /// Writer side: fill the channel, then wait to be woken when the reader disappears.
-fn write_until_broken(mut wtr: swimos_byte_channel::ByteWriter, deadline: Duration) -> bool {
+fn write_until_broken(mut wtr: swimos_byte_channel::ByteWriter, deadline: Duration, closed: &AtomicBool) -> bool {
     let w = Arc::new(Unpark(thread::current(), AtomicBool::new(false)));
     let waker = Waker::from(w.clone());
     loop {
@@ -59,10 +63,13 @@ fn write_until_broken(mut wtr: swimos_byte_channel::ByteWriter, deadline: Durati
             Poll::Ready(Ok(_)) => continue,
             Poll::Ready(Err(_)) => return true, // broken pipe seen
             Poll::Pending => {
-                let start = Instant::now();
+                let mut start: Option<Instant> = None;
                 while !w.1.swap(false, Ordering::SeqCst) {
-                    if start.elapsed() > deadline {
-                        return false;
+                    if closed.load(Ordering::SeqCst) {
+                        let t0 = *start.get_or_insert_with(Instant::now);
+                        if t0.elapsed() > deadline {
+                            return false;
+                        }
                     }
                     thread::park_timeout(Duration::from_millis(5));
                 }
@@ -78,23 +85,23 @@ fn race(rounds: u64, seed: u64) -> String {
     // half and waits for the close; both directions
     let mut handles = vec![];
     for pair in 0..2u64 {
-        let (tx_r, rx_r) = sync_channel::<swimos_byte_channel::ByteReader>(1);
-        let (tx_w, rx_w) = sync_channel::<swimos_byte_channel::ByteWriter>(1);
+        let (tx_r, rx_r) = sync_channel::<(swimos_byte_channel::ByteReader, Arc<AtomicBool>)>(1);
+        let (tx_w, rx_w) = sync_channel::<(swimos_byte_channel::ByteWriter, Arc<AtomicBool>)>(1);
         let waiter = thread::spawn(move || {
             let mut lost = 0u64;
             loop {
                 // alternate: a reader to drain to the end of the stream, then a writer to push into a broken pipe
                 match rx_r.recv() {
-                    Ok(r) => {
-                        if !read_to_end(r, deadline) {
+                    Ok((r, closed)) => {
+                        if !read_to_end(r, deadline, &closed) {
                             lost += 1;
                         }
                     }
                     Err(_) => break,
                 }
                 match rx_w.recv() {
-                    Ok(w) => {
-                        if !write_until_broken(w, deadline) {
+                    Ok((w, closed)) => {
+                        if !write_until_broken(w, deadline, &closed) {
                             lost += 1;
                         }
                     }
@@ -108,21 +115,25 @@ fn race(rounds: u64, seed: u64) -> String {
             for _ in 0..rounds {
                 let cap = rng.range(1, 8) as usize;
                 let (wtr, rdr) = byte_channel(NonZeroUsize::new(cap).unwrap());
-                if tx_r.send(rdr).is_err() {
+                let closed = Arc::new(AtomicBool::new(false));
+                if tx_r.send((rdr, closed.clone())).is_err() {
                     break;
                 }
                 for _ in 0..rng.below(60) {
                     std::hint::spin_loop();
                 }
                 drop(wtr);
+                closed.store(true, Ordering::SeqCst);
                 let (wtr, rdr) = byte_channel(NonZeroUsize::new(cap).unwrap());
-                if tx_w.send(wtr).is_err() {
+                let closed = Arc::new(AtomicBool::new(false));
+                if tx_w.send((wtr, closed.clone())).is_err() {
                     break;
                 }
                 for _ in 0..rng.below(60) {
                     std::hint::spin_loop();
                 }
                 drop(rdr);
+                closed.store(true, Ordering::SeqCst);
             }
         });
         handles.push((waiter, closer));
